@@ -11,7 +11,7 @@ let op_of (t : string list) : op = match t with
   | ["srel"; v] -> OpSRelease (nt v)
   | ["clean"; l] -> OpCleanup (List.map (fun e -> (e.[0] = 's', nt (String.sub e 1 (String.length e - 1))))
                                  (if l = "-" then [] else split ',' l))
-  | ["spawn"] -> OpSpawn | ["thread"] -> OpThread
+  | ["spawn"] -> OpSpawn | ["thread"] -> OpThread | ["mwopen"] -> OpMwOpen | ["mwdrop"] -> OpMwDrop
   | ["mkp"; "l"; v; k] -> OpMkProxy (PLocal (nt v, nn k)) | ["mkp"; "s"; v] -> OpMkProxy (PStack (nt v))
   | ["px"; i; a] -> OpProxy (nt i, access a)
   | _ -> failwith "op"
